@@ -481,14 +481,29 @@ impl Driver for DSubst {
     }
 }
 
+pub fn worker_check(state: &serde_json::Value, ctx: &mut Ctx) {
+    let s: SubstState = serde_json::from_value(state.clone()).expect("state");
+    check_state(&s, ctx);
+}
+
 pub fn run(tier: &str, seed: u64) -> i32 {
     let mut report = Report::new("C07", tier, seed, "model_checking");
-    let budget = Budget {
-        max_depth: 3,
-        wall: Duration::from_secs(if tier == "thorough" { 600 } else { 150 }),
-        max_states: 1_000_000,
-    };
-    report.add(explore(&DSubst, &budget, seed, |s, ctx| check_state(s, ctx)));
+    let (all, transitions, complete) = enumerate(&DSubst, 3, 1_000_000);
+    let states: Vec<String> = all.iter().map(|(_, s)| serde_json::to_string(s).unwrap()).collect();
+    // worker subprocesses: a substitution that recurses without end kills the worker, not the check
+    let mut st = isolated_sweep(
+        &format!("{} (worker subprocesses)", DSubst.name()),
+        "C07",
+        &states,
+        64,
+        Duration::from_secs(if tier == "thorough" { 600 } else { 150 }),
+        Duration::from_secs(10),
+        "C07",
+    );
+    st.transitions = transitions.max(1);
+    st.exhaustive &= complete;
+    st.max_depth = 3;
+    report.add(st);
     report.assumptions = vec![
         "the reference substitution is a token-tree walk written from the statement (pass-through iff neither side declares generics; otherwise bare source-parameter identifiers in generic-argument position are replaced at any depth by the resolved argument of that index, if present)".into(),
         "expected type paths come from the independent printer families::Expect".into(),
